@@ -40,10 +40,12 @@ def jobs(tier):
             redirect={"include_file": "stub_include_file", "expand_macro": "stub_expand_macro"}, bounded="two directives in files of two directories, 2 search directories", sample="two #include \"x.h\" directives standing in files of different directories", **P),
         Job(name="include-not-a-name", src="incl.c", group="C10.5 include search order", defs={"FORM": "4"}, unwind=12, cbmc_flags=["--paths lifo"],
             redirect={"include_file": "stub_include_file", "expand_macro": "stub_expand_macro"}, bounded="one directive", sample="#include foo (not a macro)", **dict(P, cut=["error", "error_at", "verror_at"])),
-        *[Job(name=f"include-guard-pro{g}" + (f"-k{k0}" if k0 is not None else ""), src="guard.c", group="C10.6 re-inclusion shortcuts",
-              defs=dict({"PRO": str(g), "NL": "4" if g == 0 else "3"}, **({"K0": str(k0)} if k0 is not None else {})), unwind=24, cbmc_flags=["--paths lifo"],
-              bounded="files of a guard prologue + at most 4 (3) directive/text lines", sample="detect_include_guard on every sequence of up to 4 (3) lines from {text,#if,#ifdef,#else,#elif,#endif} after " + ["#ifndef X/#define X", "#ifndef X/#define Y", "text/#ifndef X/#define X"][g], **P)
-          for g in range(3) for k0 in (range(6) if g == 0 else [None])],
+        *[Job(name=f"include-guard-pro0-k{k0}{k1}", src="guard.c", group="C10.6 re-inclusion shortcuts", defs={"PRO": "0", "NL": "4", "K0": str(k0), "K1": str(k1)}, unwind=24, cbmc_flags=["--paths lifo"],
+              bounded="files of a guard prologue + at most 4 directive/text lines", sample="detect_include_guard on every sequence of up to 4 lines from {text,#if,#ifdef,#else,#elif,#endif} after #ifndef X/#define X", **P)
+          for k0 in range(6) for k1 in range(6)],
+        *[Job(name=f"include-guard-pro{g}", src="guard.c", group="C10.6 re-inclusion shortcuts", defs={"PRO": str(g), "NL": "3"}, unwind=24, cbmc_flags=["--paths lifo"],
+              bounded="files of a guard prologue + at most 3 directive/text lines", sample="detect_include_guard on every sequence of up to 3 lines after " + ["", "#ifndef X/#define Y", "text/#ifndef X/#define X"][g], **P)
+          for g in (1, 2)],
         *([Job(name=f"include-guard5-k{k0}{k1}", src="guard.c", group="C10.6 re-inclusion shortcuts", defs={"PRO": "0", "NL": "5", "K0": str(k0), "K1": str(k1)}, unwind=24, cbmc_flags=["--paths lifo"], tier="thorough",
                bounded="files of a guard prologue + 5 directive/text lines", sample="detect_include_guard, 5 lines", **dict(P, timeout=900)) for k0 in range(6) for k1 in range(6)] if tier == "thorough" else []),
         Job(name="cmdline-search-order", src="cmdline.c", group="C10.7 command-line ordering", defs={"NS": "3"}, units=["strings.c"], unwind=40, cbmc_flags=["--paths lifo"],
